@@ -89,7 +89,19 @@ def programs(draw):
         st.tuples(st.just('req'), st.integers(0, 3), st.sampled_from(['resp', 'req']), st.sampled_from([1, 2, 5, gen.MAXN])),
         st.tuples(st.just('cancel'), st.integers(0, 3), st.just('resp')),
     )
-    ops.extend(list(o) for o in draw(st.lists(op, min_size=3, max_size=25)))
+    tail = [[list(o)] for o in draw(st.lists(op, min_size=3, max_size=25))]
+    if draw(st.integers(0, 3)) == 0:
+        # a link that stalls in the middle of a train for several keepalive periods: KEEPALIVE frames (stream 0) pile up
+        # behind the partly sent frame and end up between its fragments
+        cfg['ka'] = draw(st.sampled_from([0.02, 0.05]))
+        cfg['life'] = 100000.0
+        for _ in range(draw(st.integers(1, 2))):
+            side = draw(st.sampled_from(['c', 's']))
+            i = draw(st.integers(0, 3))
+            stall = [['block', side], ['emit', i, draw(st.sampled_from(['resp', 'req'])), 2], ['resolve', i], ['tick', 2],
+                     ['adv', draw(st.sampled_from([60, 150, 400]))], ['unblock', side], ['tick', 3]]
+            tail.insert(draw(st.integers(0, len(tail))), stall)
+    ops.extend(o for ch in tail for o in ch)
     return {'cfg': cfg, 'inter': inter, 'ops': ops}
 
 
@@ -154,7 +166,7 @@ def reconnect_cases():
         case = dict(case, frag=64, lease=False, endings=[dict(e) for e in case['endings']])
         for e in case['endings']:
             if e['kind'] != 'ka_timeout':
-                e['server_partial'] = True
+                e['server_partial'] = 'element' if ('ch' in e['pending'] and len(e['pending']) % 2 == 0) else True
         return {'reconnect': case}
 
     return c17.cases().map(force)
